@@ -7,6 +7,56 @@ namespace LLBuild.Engine
 theorem isSome_of_ne_none {α : Type} {o : Option α} (h : o.isNone = true) : o = none := by
   cases o <;> simp_all
 
+/-- `lookup`: a rule that was not registered is registered with the signature the program gives it
+in the current external state -/
+theorem Inv.lookup {P : Program} {s s' : St} {k : Key}
+    (h1 : s'.env = s.env) (h2 : s'.epoch = s.epoch) (h3 : s'.mem = s.mem)
+    (h4 : s'.db = s.db) (h5 : s'.dbIter = s.dbIter) (h6 : s'.status = s.status) (h7 : s'.task = s.task)
+    (h8 : s'.pending = s.pending) (h9 : s'.target = s.target) (h10 : s'.started = s.started)
+    (h11 : s'.validSeen = s.validSeen) (h12 : s'.registered = upd s.registered k true)
+    (h13 : s'.sigAt = upd s.sigAt k (P.sig s.env k)) (hnr : s.registered k = false)
+    (hi : Inv P s) : Inv P s' := by
+  -- everything but the registrations is unchanged
+  have hi0 : Inv P { s' with registered := s.registered, sigAt := s.sigAt } :=
+    Inv.congr (s := s) h1 h2 h3 h4 h5 h6 h7 h8 h9 h10 h11 rfl (fun _ _ => rfl) hi
+  have hne : ∀ x, s.status x = .scanning → x ≠ k := by
+    intro x hx e; subst e; have := hi.scanReg x hx; rw [hnr] at this; cases this
+  constructor
+  · exact hi0.memE
+  · exact hi0.dbE
+  · exact hi0.iterLe
+  · exact hi0.iterEq
+  · exact hi0.pendIdle
+  · exact hi0.startedPos
+  · exact hi0.startedTarget
+  · exact hi0.notStarted
+  · exact hi0.stIdle
+  · exact hi0.stDone
+  · exact hi0.builtNow
+  · exact hi0.dbBuiltNow
+  · exact hi0.seqDone
+  · exact hi0.good
+  · exact hi0.dbGood
+  · exact hi0.dbCross
+  · exact hi0.memDb
+  · exact hi0.clean
+  · exact hi0.pendOk
+  · intro x hfl hsx; exact ⟨(hi0.taskOk x hfl hsx).issued, (hi0.taskOk x hfl hsx).valid, (hi0.taskOk x hfl hsx).inputs, (hi0.taskOk x hfl hsx).running, (hi0.taskOk x hfl hsx).computing⟩
+  · exact hi0.inflightActive
+  · intro x hx hv
+    have hx0 : s.status x = .scanning := by rw [h6] at hx; exact hx
+    rw [h13, upd_other _ _ _ _ (hne x hx0)]
+    exact hi0.validOk x hx hv
+  · exact hi0.validIdle
+  · intro x hx
+    rw [h13]
+    by_cases e : x = k
+    · subst e; rw [upd_same]; exact ⟨s.env, rfl⟩
+    · rw [upd_other _ _ _ _ e]; rw [h12, upd_other _ _ _ _ e] at hx; exact hi.sigAtOk x hx
+  · intro x hx
+    have hx0 : s.status x = .scanning := by rw [h6] at hx; exact hx
+    rw [h12, upd_other _ _ _ _ (hne x hx0)]; exact hi.scanReg x hx0
+
 /-- Every event the model accepts preserves the invariant, unless the (ghost) flag records that a
 failed build dropped pending discovered dependencies. -/
 theorem step_inv {P : Program} (hP : P.WF) {s s' : St} {e : Event}
@@ -17,7 +67,7 @@ theorem step_inv {P : Program} (hP : P.WF) {s s' : St} {e : Event}
     split at h
     · cases h
       rename_i hc
-      exact Inv.buildStart (s := s) rfl rfl rfl rfl rfl rfl rfl rfl rfl rfl rfl (isSome_of_ne_none hc) hi
+      exact Inv.buildStart (s := s) rfl rfl rfl rfl rfl rfl rfl rfl rfl rfl rfl rfl rfl (isSome_of_ne_none hc) hi
     · cases h
   | queueCreated =>
     simp only [step] at h
@@ -25,12 +75,14 @@ theorem step_inv {P : Program} (hP : P.WF) {s s' : St} {e : Event}
     · cases h
       rename_i hc
       simp only [Bool.and_eq_true, Bool.not_eq_eq_eq_not, Bool.not_true] at hc
-      exact Inv.queueCreated (s := s) rfl rfl rfl rfl rfl rfl rfl rfl rfl rfl rfl hc.1 hc.2 hi
+      exact Inv.queueCreated (s := s) rfl rfl rfl rfl rfl rfl rfl rfl rfl rfl rfl rfl rfl hc.1 hc.2 hi
     · cases h
   | lookup k =>
     simp only [step] at h
     split at h
-    · cases h; exact Inv.congr (s := s) rfl rfl rfl rfl rfl rfl rfl rfl rfl rfl rfl hi
+    · cases h
+      rename_i hc
+      exact Inv.lookup (s := s) (k := k) rfl rfl rfl rfl rfl rfl rfl rfl rfl rfl rfl rfl rfl (by simpa using hc) hi
     · cases h
   | dbGet k found =>
     simp only [step] at h
@@ -41,12 +93,12 @@ theorem step_inv {P : Program} (hP : P.WF) {s s' : St} {e : Event}
   | dbEnd =>
     simp only [step] at h
     split at h
-    · cases h; exact Inv.congr (s := s) rfl rfl rfl rfl rfl rfl rfl rfl rfl rfl rfl hi
+    · cases h; exact Inv.congr (s := s) rfl rfl rfl rfl rfl rfl rfl rfl rfl rfl rfl rfl (fun _ _ => rfl) hi
     · cases h
   | crash =>
     simp only [step] at h
     split at h
-    · cases h; exact Inv.congr (s := crashState s) rfl rfl rfl rfl rfl rfl rfl rfl rfl rfl rfl hc
+    · cases h; exact Inv.congr (s := crashState s) rfl rfl rfl rfl rfl rfl rfl rfl rfl rfl rfl rfl (fun _ h => by cases h) hc
     · cases h
   | scanning k =>
     simp only [step] at h
@@ -54,16 +106,16 @@ theorem step_inv {P : Program} (hP : P.WF) {s s' : St} {e : Event}
     · cases h
       rename_i hc
       simp only [Bool.and_eq_true, beq_iff_eq] at hc
-      obtain ⟨⟨⟨hst, hidle⟩, _⟩, _⟩ := hc
+      obtain ⟨⟨⟨hst, hidle⟩, hreg⟩, _⟩ := hc
       -- first the dependency filter, then the status change
       have h1 : Inv P { s with mem := s.mem.setRes k { s.mem.res k with deps := (s.mem.res k).deps.filter (fun d => !d.singleUse), sig := (s.mem.res k).sig } } := by
-        refine Inv.memDeps (s := s) (k := k) rfl rfl rfl rfl rfl rfl rfl rfl rfl rfl rfl ?_ hi
+        refine Inv.memDeps (s := s) (k := k) rfl rfl rfl rfl rfl rfl rfl rfl rfl rfl rfl rfl rfl rfl ?_ hi
         right
         intro x hx
         exact List.mem_filter.2 ⟨hx, by simp⟩
       exact Inv.statusQuiet (s := { s with mem := s.mem.setRes k { s.mem.res k with deps := (s.mem.res k).deps.filter (fun d => !d.singleUse), sig := (s.mem.res k).sig } })
-        (k := k) (st := .scanning) rfl rfl rfl rfl rfl rfl rfl rfl rfl rfl rfl
-        (Or.inr (Or.inl hidle)) (Or.inl rfl) hst (fun _ => hidle) h1
+        (k := k) (st := .scanning) rfl rfl rfl rfl rfl rfl rfl rfl rfl rfl rfl rfl rfl
+        (Or.inr (Or.inl hidle)) (Or.inl rfl) hst (fun _ => hidle) (fun _ => hreg) h1
     · cases h
   | upToDate k =>
     simp only [step] at h
@@ -72,7 +124,7 @@ theorem step_inv {P : Program} (hP : P.WF) {s s' : St} {e : Event}
       rename_i hc
       simp only [Bool.and_eq_true, beq_iff_eq] at hc
       obtain ⟨⟨hs, hv⟩, hall⟩ := hc
-      exact Inv.upToDate hP (s := s) rfl rfl rfl rfl rfl rfl rfl rfl rfl rfl rfl hs hv hall hi
+      exact Inv.upToDate hP (s := s) rfl rfl rfl rfl rfl rfl rfl rfl rfl rfl rfl rfl rfl hs hv hall hi
     · cases h
   | valid k v b =>
     simp only [step] at h
@@ -111,12 +163,14 @@ theorem step_inv {P : Program} (hP : P.WF) {s s' : St} {e : Event}
           simp only [upd_same] at hvx
           have : b = true := by simpa using hvx
           subst this
-          exact ⟨by rw [hv] at hbv; exact hbv.symm, hb⟩
+          exact ⟨by rw [hv] at hbv; exact hbv.symm, hb, hsig⟩
         · simp only [upd_other _ _ _ _ e] at hvx; exact hi.validOk x hx hvx
       · intro ht x hx
         by_cases e : x = k
         · subst e; rw [hs] at hx; cases hx
         · simp only [upd_other _ _ _ _ e]; exact hi.validIdle ht x hx
+      · exact hi.sigAtOk
+      · exact hi.scanReg
     · cases h
   | needs k reason input =>
     simp only [step] at h
@@ -125,8 +179,8 @@ theorem step_inv {P : Program} (hP : P.WF) {s s' : St} {e : Event}
       rename_i hc
       simp only [Bool.and_eq_true, beq_iff_eq] at hc
       have hst := started_of_status hi (k := k) (by rw [hc.1]; simp)
-      exact Inv.statusQuiet (s := s) (k := k) (st := .needsRun) rfl rfl rfl rfl rfl rfl rfl rfl rfl rfl rfl
-        (Or.inl hc.1) (Or.inr rfl) hst (fun h => by cases h) hi
+      exact Inv.statusQuiet (s := s) (k := k) (st := .needsRun) rfl rfl rfl rfl rfl rfl rfl rfl rfl rfl rfl rfl rfl
+        (Or.inl hc.1) (Or.inr rfl) hst (fun h => by cases h) (fun h => by cases h) hi
     · cases h
   | create k =>
     simp only [step] at h
@@ -135,9 +189,9 @@ theorem step_inv {P : Program} (hP : P.WF) {s s' : St} {e : Event}
       rename_i hc
       simp only [Bool.and_eq_true, beq_iff_eq] at hc
       have h1 : Inv P { s with status := upd s.status k .running, task := upd s.task k {} } :=
-        Inv.toRunning (s := s) (k := k) rfl rfl rfl rfl rfl rfl rfl rfl rfl rfl rfl hc.1 hi
+        Inv.toRunning (s := s) (k := k) rfl rfl rfl rfl rfl rfl rfl rfl rfl rfl rfl rfl rfl hc.1 hi
       refine Inv.memDeps (s := { s with status := upd s.status k .running, task := upd s.task k {} })
-        (k := k) (d' := []) (sg' := (s.mem.res k).sig) rfl rfl rfl rfl rfl rfl rfl rfl rfl rfl rfl ?_ h1
+        (k := k) (d' := []) (sg' := (s.mem.res k).sig) rfl rfl rfl rfl rfl rfl rfl rfl rfl rfl rfl rfl rfl rfl ?_ h1
       left; simp [inflight]
     · cases h
   | start k reqs =>
@@ -147,7 +201,7 @@ theorem step_inv {P : Program} (hP : P.WF) {s s' : St} {e : Event}
       rename_i hc
       simp only [Bool.and_eq_true, beq_iff_eq, Bool.not_eq_eq_eq_not, Bool.not_true] at hc
       obtain ⟨⟨hs, hns⟩, hreq⟩ := hc
-      refine Inv.taskUpd (s := s) (k := k) rfl rfl rfl rfl rfl rfl rfl rfl rfl rfl rfl ?_ hi
+      refine Inv.taskUpd (s := s) (k := k) rfl rfl rfl rfl rfl rfl rfl rfl rfl rfl rfl rfl rfl ?_ hi
       intro _ _
       constructor
       · simp [hreq]
@@ -165,7 +219,7 @@ theorem step_inv {P : Program} (hP : P.WF) {s s' : St} {e : Event}
       obtain ⟨⟨⟨⟨⟨hs, hts⟩, _⟩, _⟩, _⟩, _⟩ := hc
       have hfl : inflight s k = true := by simp [inflight, hs]
       have t := hi.taskOk k hfl hts
-      refine Inv.taskUpd (s := s) (k := k) rfl rfl rfl rfl rfl rfl rfl rfl rfl rfl rfl ?_ hi
+      refine Inv.taskUpd (s := s) (k := k) rfl rfl rfl rfl rfl rfl rfl rfl rfl rfl rfl rfl rfl ?_ hi
       intro _ _
       constructor
       · simpa using t.issued
@@ -194,7 +248,7 @@ theorem step_inv {P : Program} (hP : P.WF) {s s' : St} {e : Event}
           have hqm := List.mem_of_find?_eq_some hfind
           simp only [Bool.and_eq_true, beq_iff_eq, bne_iff_ne, ne_eq, Bool.not_eq_eq_eq_not, Bool.not_true] at hq
           obtain ⟨⟨⟨hqk, hqi⟩, hq2⟩, hnd⟩ := hq
-          refine Inv.taskUpd (s := s) (k := k) rfl rfl rfl rfl rfl rfl rfl rfl rfl rfl rfl ?_ hi
+          refine Inv.taskUpd (s := s) (k := k) rfl rfl rfl rfl rfl rfl rfl rfl rfl rfl rfl rfl rfl ?_ hi
           intro _ _
           constructor
           · simpa using hiss
@@ -219,7 +273,7 @@ theorem step_inv {P : Program} (hP : P.WF) {s s' : St} {e : Event}
       rename_i hc
       simp only [Bool.and_eq_true] at hc
       obtain ⟨⟨⟨⟨hs, hts⟩, _⟩, hall⟩, hdsc⟩ := hc
-      exact Inv.toComputing (s := s) rfl rfl rfl rfl rfl rfl rfl rfl rfl rfl rfl (eq_of_beq hs) hts hall (eq_of_beq hdsc) hi
+      exact Inv.toComputing (s := s) rfl rfl rfl rfl rfl rfl rfl rfl rfl rfl rfl rfl rfl (eq_of_beq hs) hts hall (eq_of_beq hdsc) hi
     · cases h
   | complete k v force =>
     simp only [step] at h
@@ -228,7 +282,7 @@ theorem step_inv {P : Program} (hP : P.WF) {s s' : St} {e : Event}
       rename_i hc
       simp only [Bool.and_eq_true, beq_iff_eq, Bool.not_eq_eq_eq_not, Bool.not_true] at hc
       obtain ⟨⟨⟨⟨hs, hts⟩, _⟩, hv⟩, _⟩ := hc
-      refine Inv.complete (s := s) (k := k) rfl rfl rfl rfl rfl rfl rfl rfl rfl rfl rfl hs hts ?_ ?_ ?_ hi
+      refine Inv.complete (s := s) (k := k) rfl rfl rfl rfl rfl rfl rfl rfl rfl rfl rfl rfl rfl hs hts ?_ ?_ ?_ hi
       · split <;> rfl
       · split
         · rename_i hcc
@@ -246,7 +300,7 @@ theorem step_inv {P : Program} (hP : P.WF) {s s' : St} {e : Event}
       rename_i hc
       simp only [Bool.and_eq_true, beq_iff_eq] at hc
       obtain ⟨⟨⟨⟨⟨⟨⟨⟨⟨hs, hts⟩, htc⟩, _⟩, _⟩, _⟩, _⟩, hlen⟩, hperm⟩, hdrop⟩ := hc
-      refine Inv.finished hP (s := s) (k := k) rfl rfl rfl rfl rfl rfl rfl rfl rfl rfl rfl hs hts htc rfl rfl rfl ?_ ?_ hi
+      refine Inv.finished hP (s := s) (k := k) rfl rfl rfl rfl rfl rfl rfl rfl rfl rfl rfl rfl rfl hs hts htc rfl rfl rfl ?_ ?_ hi
       · intro q hq
         have : q.toDep ∈ row.deps.take (s.task k).issued.length :=
           isPerm_mem _ _ hperm _ (List.mem_map.2 ⟨q, hq, rfl⟩)
@@ -262,17 +316,17 @@ theorem step_inv {P : Program} (hP : P.WF) {s s' : St} {e : Event}
     · cases h
       rename_i hc
       simp only [Bool.and_eq_true, beq_iff_eq] at hc
-      exact Inv.dbIter (s := s) rfl rfl rfl rfl (by simp [hc.2]) rfl rfl rfl rfl rfl rfl hi
+      exact Inv.dbIter (s := s) rfl rfl rfl rfl (by simp [hc.2]) rfl rfl rfl rfl rfl rfl rfl rfl hi
     · cases h
   | cycle ks =>
     simp only [step] at h
     split at h
     · split at h
-      · cases h; exact Inv.congr (s := s) rfl rfl rfl rfl rfl rfl rfl rfl rfl rfl rfl hi
+      · cases h; exact Inv.congr (s := s) rfl rfl rfl rfl rfl rfl rfl rfl rfl rfl rfl rfl (fun _ _ => rfl) hi
       · cases h
     · cases h
-  | error c => simp only [step] at h; cases h; exact Inv.congr (s := s) rfl rfl rfl rfl rfl rfl rfl rfl rfl rfl rfl hi
-  | cancel => simp only [step] at h; cases h; exact Inv.congr (s := s) rfl rfl rfl rfl rfl rfl rfl rfl rfl rfl rfl hi
+  | error c => simp only [step] at h; cases h; exact Inv.congr (s := s) rfl rfl rfl rfl rfl rfl rfl rfl rfl rfl rfl rfl (fun _ _ => rfl) hi
+  | cancel => simp only [step] at h; cases h; exact Inv.congr (s := s) rfl rfl rfl rfl rfl rfl rfl rfl rfl rfl rfl rfl (fun _ _ => rfl) hi
   | ret v =>
     simp only [step] at h
     split at h
@@ -280,12 +334,12 @@ theorem step_inv {P : Program} (hP : P.WF) {s s' : St} {e : Event}
     · split at h
       · cases h
       · split at h
-        · cases h; exact Inv.congr (s := s) rfl rfl rfl rfl rfl rfl rfl rfl rfl rfl rfl hi
+        · cases h; exact Inv.congr (s := s) rfl rfl rfl rfl rfl rfl rfl rfl rfl rfl rfl rfl (fun _ _ => rfl) hi
         · split at h
           · cases h
             simp only [Bool.or_eq_false_iff, Bool.not_eq_eq_eq_not, Bool.not_false] at hd
             have hpe : s.pending = [] := by simpa using hd.2
-            exact Inv.kill (s := s) rfl rfl rfl rfl rfl rfl rfl (by simp [hpe]) rfl rfl rfl hi
+            exact Inv.kill (s := s) rfl rfl rfl rfl rfl rfl rfl (by simp [hpe]) rfl rfl rfl rfl rfl hi
           · cases h
   | tail live late =>
     simp only [step] at h
@@ -296,8 +350,8 @@ theorem step_inv {P : Program} (hP : P.WF) {s s' : St} {e : Event}
       obtain ⟨⟨⟨⟨_, _⟩, _⟩, hit⟩, hpe⟩ := hc
       have hpe' : s.pending = [] := by simpa using hpe
       have h1 : Inv P { s with mem := killInflight s } :=
-        Inv.kill (s := s) rfl rfl rfl rfl rfl rfl rfl rfl rfl rfl rfl hi
-      refine Inv.goIdle (s := { s with mem := killInflight s }) rfl rfl rfl rfl rfl rfl rfl rfl rfl rfl rfl ?_ hpe' ?_ h1
+        Inv.kill (s := s) rfl rfl rfl rfl rfl rfl rfl rfl rfl rfl rfl rfl rfl hi
+      refine Inv.goIdle (s := { s with mem := killInflight s }) rfl rfl rfl rfl rfl rfl rfl rfl rfl rfl rfl rfl rfl ?_ hpe' ?_ h1
       · intro x hx
         have : inflight s x = true := hx
         simp [killInflight, this]
@@ -310,14 +364,14 @@ theorem step_inv {P : Program} (hP : P.WF) {s s' : St} {e : Event}
     split at h
     · cases h
       rename_i hc
-      exact Inv.mutate (s := s) rfl rfl rfl rfl rfl rfl rfl rfl rfl rfl (isSome_of_ne_none hc) hi
+      exact Inv.mutate (s := s) rfl rfl rfl rfl rfl rfl rfl rfl rfl rfl rfl rfl (isSome_of_ne_none hc) hi
     · cases h
   | restart =>
     simp only [step] at h
     split at h
     · cases h
       rename_i hc
-      exact Inv.restart (s := s) rfl rfl rfl rfl rfl rfl rfl rfl rfl rfl rfl (isSome_of_ne_none hc) hi
+      exact Inv.restart (s := s) rfl rfl rfl rfl rfl rfl rfl rfl rfl rfl rfl rfl (isSome_of_ne_none hc) hi
     · cases h
   | wipe =>
     simp only [step] at h
@@ -333,7 +387,7 @@ theorem step_invC {P : Program} (hP : P.WF) {s s' : St} {e : Event}
   case mutate slot val =>
     split at h
     · cases h
-      exact Inv.mutate (s := crashState s) rfl rfl rfl rfl rfl rfl rfl rfl rfl rfl rfl hc
+      exact Inv.mutate (s := crashState s) rfl rfl rfl rfl rfl rfl rfl rfl rfl rfl rfl rfl rfl hc
     · cases h
   case dbEnd =>
     split at h
@@ -346,7 +400,7 @@ theorem step_invC {P : Program} (hP : P.WF) {s s' : St} {e : Event}
         rcases hg with h | h
         · exact hi.iterEq (Or.inr h)
         · exact h
-      exact Inv.commit (s := s) rfl rfl rfl rfl rfl rfl rfl rfl rfl hit hpe hi
+      exact Inv.commit (s := s) rfl rfl rfl rfl rfl rfl rfl rfl rfl rfl hit hpe hi
     · cases h
   case wipe =>
     split at h
